@@ -117,7 +117,7 @@ pub fn gen_text(r: &mut Rng, out: &mut Vec<u8>) {
 }
 
 pub fn gen_op(r: &mut Rng, d: Dim, out: &mut Vec<u8>, f: &Feat) {
-    match r.below(64) {
+    match r.below(72) {
         0..=15 => gen_text(r, out),
         16 | 17 => out.push(*r.pick(&[8u8, 9, 10, 11, 12, 13, 13, 10])),
         18 => out.extend(b"\r\n"),
@@ -251,7 +251,67 @@ pub fn gen_op(r: &mut Rng, d: Dim, out: &mut Vec<u8>, f: &Feat) {
             let s: &[u8] = *r.pick(&[&b"\x1b"[..], b"\x1b[", b"\x1b[1;", b"\x1b]0;ab", b"\x1b[?", b"\xe3\x81", b"\xf0\x9f", b"\xc3"]);
             out.extend(s);
         }
+        60..=66 => idiom(r, d, out),
         _ => gen_text(r, out),
+    }
+}
+
+
+/// multi-step idioms that reach rarely visited branches
+pub fn idiom(r: &mut Rng, d: Dim, out: &mut Vec<u8>) {
+    match 60 + r.below(7) {
+        60 => {
+            // wide char in the last two columns, one more char (wraps), back to column 0, combining mark
+            if d.cols >= 2 {
+                out.extend(format!("\x1b[{}G", d.cols - 1).as_bytes());
+                out.extend(r.pick(WIDE).as_bytes());
+                out.push(b'a' + r.below(26) as u8);
+                out.extend(*r.pick(&[&b"\r"[..], b"\x08", b"\x1b[G", b"\x1b[D"]));
+                out.extend(r.pick(ZERO).as_bytes());
+            }
+        }
+        61 => {
+            // fill the line exactly, then a combining mark (appends across the pending wrap), maybe one more char
+            out.extend(b"\r");
+            for _ in 0..d.cols.min(140) {
+                out.push(b'a' + r.below(26) as u8);
+            }
+            if r.chance(1, 2) {
+                out.push(b'z');
+                out.extend(*r.pick(&[&b"\r"[..], b"\x08"]));
+            }
+            out.extend(r.pick(ZERO).as_bytes());
+        }
+        62 | 63 => {
+            // cursor onto the second half of a wide character, then an editing operation
+            out.extend(r.pick(WIDE).as_bytes());
+            out.extend(*r.pick(&[&b"\x08"[..], b"\x1b[D", b"\x08\x08"]));
+            let fin = *r.pick(&['@', 'P', 'X', 'K', 'J', 'L', 'M']);
+            let p = param(r, d);
+            out.extend(format!("\x1b[{p}{fin}").as_bytes());
+            if r.chance(1, 3) {
+                gen_text(r, out);
+            }
+        }
+        64 | 65 => {
+            // pending wrap (cursor past the last column), then an operation that does not move it
+            out.extend(b"\r");
+            for _ in 0..d.cols.min(140) {
+                out.push(b'a' + r.below(26) as u8);
+            }
+            let fin = *r.pick(&['@', 'P', 'X', 'K', 'J', 'L', 'M', 'A', 'B', 'd', 'S', 'T']);
+            let p = param(r, d);
+            out.extend(format!("\x1b[{p}{fin}").as_bytes());
+        }
+        66 => {
+            // wide characters back to back, overwritten at an odd offset
+            for _ in 0..(1 + r.below(4)) {
+                out.extend(r.pick(WIDE).as_bytes());
+            }
+            out.extend(format!("\x1b[{}D", 1 + r.below(5)).as_bytes());
+            gen_text(r, out);
+        }
+        _ => {}
     }
 }
 
@@ -500,9 +560,39 @@ pub fn fam_csi(r: &mut Rng) -> Case {
     let f = Feat { alt: r.chance(1, 5), ris: false, region: true, osc: false, garbage: false, modes: false, resize_csi: false };
     let b = gen_stream_n(r, d, 10, &f);
     p_lines(r, &b, &mut lines);
+    let mut scrolled = false;
+    if _cap > 0 && r.chance(1, 3) {
+        // scroll some lines off and look at the history while the operation is processed
+        let mut pre = vec![];
+        for _ in 0..(1 + r.below(u64::from(d.rows) + 1)) {
+            pre.extend(b"\n");
+        }
+        for _ in 0..r.below(3) {
+            gen_op(r, d, &mut pre, &f);
+        }
+        lines.push(format!("P {}", hex(&pre)));
+        lines.push(format!("SB {}", 1 + r.below(3)));
+        scrolled = true;
+    }
     lines.push("DUMP".into());
     lines.push("LOG".into());
     let mut op = vec![];
+    if scrolled && r.chance(1, 2) {
+        // an editing idiom processed while the view is scrolled back
+        let mut rr = Rng(r.next() | 1);
+        loop {
+            let mut tmp = vec![];
+            idiom(&mut rr, d, &mut tmp);
+            if !tmp.is_empty() {
+                op = tmp;
+                break;
+            }
+        }
+        lines.push(format!("P {}", hex(&op)));
+        lines.push("DUMP".into());
+        lines.push("LOG".into());
+        return Case { lines };
+    }
     match r.below(10) {
         0..=5 => {
             let fin = *r.pick(&['@', 'A', 'B', 'C', 'D', 'E', 'F', 'G', 'J', 'K', 'L', 'M', 'P', 'S', 'T', 'X', 'd', 'H', 'r', 'm', 'h', 'l', 't', 'n', 'c', 'p', 'q', 's', 'u', 'Z', 'I', 'b', 'f', 'g']);
